@@ -64,6 +64,12 @@ func (kvsEngine) Gen(prop string, seed uint64, tier string) *Spec {
 	rng := simrt.Stream(seed, "workload")
 	nkeys := 2 + rng.Intn(5)
 	ncl := 1 + rng.Intn(4)
+	big := rng.Chance(0.015)
+	if big {
+		// "1..many keys": multi-puts with more pairs than one journal transaction can hold
+		nkeys = 513 + rng.Intn(12)
+		ncl = 1 + rng.Intn(2)
+	}
 	maxops := 8
 	if tier == "thorough" {
 		maxops = 10
@@ -78,13 +84,35 @@ func (kvsEngine) Gen(prop string, seed uint64, tier string) *Spec {
 		spec.Knobs["subsets"] = 8
 	}
 	val := uint64(1)
+	if big {
+		spec.Knobs["big"] = 1
+	}
 	for c := 0; c < ncl; c++ {
 		n := 3 + rng.Intn(maxops-2)
 		if ncl == 1 {
 			n += 4
 		}
+		if big {
+			n = 2 + rng.Intn(2)
+		}
 		var ops []Op
 		for i := 0; i < n; i++ {
+			if big && rng.Chance(0.7) {
+				// a run of distinct keys around the capacity of the log (511 blocks)
+				np := []int{300, 510, 511, 512, 512, 513, 520, nkeys}[rng.Intn(8)]
+				if np > nkeys {
+					np = nkeys
+				}
+				op := Op{K: "put"}
+				start := rng.Intn(nkeys - np + 1)
+				for j := 0; j < np; j++ {
+					op.Keys = append(op.Keys, uint64(common.LOGSIZE)+uint64(start+j))
+					op.Vals = append(op.Vals, uint64(c+1)<<32|val)
+					val++
+				}
+				ops = append(ops, op)
+				continue
+			}
 			if rng.Chance(0.6) {
 				np := 1 + rng.Intn(4)
 				if rng.Chance(0.15) {
@@ -123,8 +151,9 @@ type kvsIn struct {
 }
 
 type kvsOut struct {
-	Val uint64
-	All []uint64
+	Val     uint64
+	All     []uint64
+	Refused bool // MultiPut returned false: nothing may have been installed
 }
 
 type kvsState string // canonical "k=v;" rendering, keys sorted
@@ -174,6 +203,9 @@ func kvsModel(lo, n uint64) porcupine.Model {
 				}
 				return []interface{}{st}
 			case in.Put:
+				if out.Refused && !in.Pending {
+					return []interface{}{st} // refused: none of its pairs installed
+				}
 				m := st.toMap()
 				for i, k := range in.Keys {
 					m[k] = in.Vals[i]
@@ -242,7 +274,7 @@ func (kvsEngine) Exec(spec *Spec) *Result {
 						}
 						ok := kv.MultiPut(pairs)
 						if !ok {
-							simrt.Fail("model-mismatch", "MultiPut returned false")
+							r.out.Refused = true
 						}
 					} else {
 						r.in = kvsIn{Keys: op.Keys}
@@ -322,6 +354,9 @@ func (kvsEngine) Exec(spec *Spec) *Result {
 	if spec.Tier == "thorough" {
 		maxImg = 2000
 	}
+	if spec.knob("big", 0) != 0 {
+		maxImg = 40 // every read-back touches several hundred keys
+	}
 	v := enumerateCrashes(d.Base, d.Trace, spec.Crash, crng, int(spec.knob("subsets", 2)), maxImg, &cst, func(cp *CrashPoint) *Violation {
 		vec, tr2, base2, v := kvsRecover(spec, cp.Img, sz, false)
 		if v != nil {
@@ -368,7 +403,11 @@ func (kvsEngine) Exec(spec *Spec) *Result {
 			if spec.Crash != nil {
 				only = spec.Crash.Next
 			}
-			v := enumerateCrashes(base2, tr2, only, crng, 1, 40, &cst2, func(cp2 *CrashPoint) *Violation {
+			nmax := 40
+			if spec.knob("big", 0) != 0 {
+				nmax = 3
+			}
+			v := enumerateCrashes(base2, tr2, only, crng, 1, nmax, &cst2, func(cp2 *CrashPoint) *Violation {
 				vec2, _, _, v := kvsRecover(spec, cp2.Img, sz, true)
 				if v != nil {
 					return v
